@@ -217,18 +217,23 @@ theorem weightedPos_ok {n : Nat} {sumw : List α} (hn : 0 < n) (hl : n ≤ sumw.
     simp only [this, if_false]
     exact ⟨n - 1, rfl, by omega⟩
 
+theorem weightedIndex_ok {n : Nat} {w : List α} (hn : 0 < n) (hw : w.length = n) (prob : α) :
+    ∃ pos, weightedIndex n w prob = .ok pos ∧ pos < n := by
+  have hcne : cumSum w ≠ [] := by
+    intro h; have := cumSum_length w; rw [h] at this; simp at this; omega
+  obtain ⟨pos, hpos, hlt⟩ := weightedPos_ok (sumw := (cumSum w).map (· / (cumSum w).getLast hcne)) hn
+    (by simp [cumSum_length, hw]) prob
+  exact ⟨pos, by simp only [weightedIndex, normalize_ok hcne, hpos], hlt⟩
+
 theorem pickOneW_ok {v : List τ} {w : List α} (hv : v ≠ []) (hw : w.length = v.length) (replace : Bool) (prob : α) :
-    ∃ pos e, pos < v.length ∧ v[pos]? = some e ∧
+    ∃ pos e, pos < v.length ∧ v[pos]? = some e ∧ weightedIndex v.length w prob = .ok pos ∧
       pickOneW v w replace prob = .ok (e, if replace then v else swapPop v pos, if replace then w else swapPop w pos) := by
   have hne : v.isEmpty = false := by cases v with | nil => exact absurd rfl hv | cons _ _ => rfl
   have hvl : 0 < v.length := List.length_pos_iff.mpr hv
-  have hcne : cumSum w ≠ [] := by
-    intro h; have := cumSum_length w; rw [h] at this; simp at this; omega
-  obtain ⟨pos, hpos, hlt⟩ := weightedPos_ok (sumw := (cumSum w).map (· / (cumSum w).getLast hcne)) hvl
-    (by simp [cumSum_length, hw]) prob
-  refine ⟨pos, v[pos], hlt, List.getElem?_eq_getElem hlt, ?_⟩
+  obtain ⟨pos, hpos, hlt⟩ := weightedIndex_ok hvl hw prob
+  refine ⟨pos, v[pos], hlt, List.getElem?_eq_getElem hlt, hpos, ?_⟩
   unfold pickOneW
-  simp only [hne, normalize_ok hcne, hpos, List.getElem?_eq_getElem hlt]
+  simp only [hne, hpos, List.getElem?_eq_getElem hlt]
   cases replace
   · have : pos < w.length := by omega
     simp [this]
@@ -242,7 +247,7 @@ theorem pickPositionsNoRepl_ok : ∀ (k : Nat) (hat : List Nat) (w2 : List α) (
   | k + 1, hat, w2, d :: ds, hw, hk, hd => by
     have hv : hat ≠ [] := by intro h; subst h; simp at hk
     have hne : hat.isEmpty = false := by cases hat with | nil => exact absurd rfl hv | cons _ _ => rfl
-    obtain ⟨pos, h, hlt, hget, hpick⟩ := pickOneW_ok hv hw false d
+    obtain ⟨pos, h, hlt, hget, _, hpick⟩ := pickOneW_ok hv hw false d
     simp only [Bool.false_eq_true, if_false] at hpick
     have hl1 : (swapPop w2 pos).length = (swapPop hat pos).length := by
       rw [swapPop_length, swapPop_length, hw]
